@@ -2,5 +2,5 @@ SPECIFICATION Spec
 CONSTANTS
   MetricMode = "single"
   MaxProof = 3
-INVARIANTS SpecHonest SpecBinding SpecProof SpecExpiry SpecHistory
+INVARIANTS SpecHonest SpecBinding SpecProof SpecExpiry SpecHistory SpecProofExpiry SpecFine
 CHECK_DEADLOCK FALSE
